@@ -19,7 +19,8 @@ def _strict(ctx, ls, inc):
     return ctx.AND(*[(ls[i] < ls[i + 1]) if inc else (ls[i] > ls[i + 1]) for i in range(len(ls) - 1)])
 
 
-def align_n(ctx, specs, join='outer', sort=False, axis=None, lk=None, dataset_at=None, prime=False, ds_extra=False):
+def align_n(ctx, specs, join='outer', sort=False, axis=None, lk=None, dataset_at=None, prime=False, ds_extra=False, under=None):
+    ctx.under(under)
     """specs: list of (dims, sizes) per input array"""
     lk = lk or {}
     arrs = []
@@ -191,6 +192,9 @@ def templates():
     add('dataset-extra-0', 'align_n', cost=3, specs=[[['x'], [2]], [['x'], [2]]], dataset_at=0, ds_extra=True)
     add('dataset-extra-1-2d', 'align_n', cost=4, specs=[[['x'], [2]], [['y', 'x'], [1, 2]]], dataset_at=1, ds_extra=True)
     add('dataset-extra-inner', 'align_n', cost=3, specs=[[['x'], [2]], [['x'], [2]]], dataset_at=1, ds_extra=True, join='inner')
+    add('dataset-under-position', 'align_n', cost=3, specs=[[['x'], [2]], [['x'], [2]]], dataset_at=0, under={'indexing.by': 'position'})
+    add('dataset-under-position-inner', 'align_n', cost=3, specs=[[['x'], [2]], [['x'], [2]]], dataset_at=1, join='inner', under={'indexing.by': 'position'})
+    add('arrays-under-position', 'align_n', cost=3, specs=[[['x'], [2]], [['x'], [2]]], under={'indexing.by': 'position'})
     add('dataset-0', 'align_n', cost=2, specs=[[['x'], [2]], [['x'], [2]]], dataset_at=0)
     add('dataset-1-inner', 'align_n', cost=2, specs=[[['x', 'y'], [2, 2]], [['x'], [2]]], dataset_at=1, join='inner')
     return ts
